@@ -36,6 +36,27 @@ def perm_of_left_regular(L):
     return [[int(np.argmax(L[a][:, b])) + 1 for b in range(N)] for a in range(N)]
 
 
+def validate_repo_tests(ctx):
+    """group-theory results obtained by the repository's own tests (harness/recorder.py), validated by Trace_Group"""
+    from .. import repotrace
+    d = repotrace.record(repotrace.GROUP_TESTS, None)
+    ev = d['group']
+    if not ev:
+        raise core.MachineryError('the repository tests produced no group events: ' + d['pytest_tail'])
+    acc, rej, results = tlc.validate_events('group/Trace_Group.tla', 'group/Trace_Group.cfg', ev, shards=8)
+    for r in results:
+        ctx.states += r.distinct
+        ctx.transitions += r.generated
+    ctx.models.append(dict(model='Trace_Group[repository tests]', events=len(ev), accepted=acc, rejected=len(rej), pytest=d['pytest_tail'], exhaustive=False))
+    ctx.traces += len(ev)
+    for e in ev:
+        ctx.case(('repo', e['op'], e.get('kind'), e.get('n'), e.get('N'), repr(e.get('shape')), repr(e.get('rows'))[:80]))
+    for gi, info in rej:
+        e = ev[gi]
+        ctx.violation('C14:%s:repository-test' % e['op'], 'a result obtained by the repository tests is rejected by Trace_Group: ' + e['op'],
+                      {k: v for k, v in e.items() if k not in ('T', 'perm')} if e['op'] in ('cayley', 'regular') else e)
+
+
 def run(ctx):
     import numqi
     G = numqi.group
@@ -142,6 +163,7 @@ def run(ctx):
             ctx.violation('C14:get_all_young_tableaux:standard', 'enumerated array is not a standard Young tableau of the shape', dict(shape=e['shape'], rows=e['rows']))
     ctx.sample(dict(kind='table-event', group='sym 3', T=ev[1]['T'] if ev[1]['op'] == 'table' else None))
     ctx.sample(dict(kind='tableau-event', event=[e for e in ev if e['op'] == 'tableau'][5]))
+    validate_repo_tests(ctx)
 
 
 def replay(ctx, rec):
